@@ -700,6 +700,7 @@ class Item:
         self.mutants = []  # (label, anchor, k, text)
         self.closures = []  # (anchor, k, header)
         self.attrs = []
+        self.forloops = []  # (anchor, k, invariant text)
         self.rename = None
         self.tail = False
         self.nobody = False
@@ -732,6 +733,8 @@ def parse_template(text):
                 cur.contract = body
             elif kind == "closure":
                 cur.closures.append((data[1], data[2], body.strip()))
+            elif kind == "forloop":
+                cur.forloops.append((data[1], data[2], body))
             else:
                 where, anchor, k = data
                 cur.inserts.append((where, anchor, k, body))
@@ -759,7 +762,7 @@ def parse_template(text):
                 if not mm:
                     raise ExtractError(f"template line {i+1}: bad gsub")
                 meta["gsubs"].append((lex_anchor(unq(mm.group(1))), unq(mm.group(3)), mm.group(4) or "gsub"))
-            elif d in ("fn", "struct", "enum", "const", "expr", "type"):
+            elif d in ("fn", "struct", "enum", "const", "expr", "type", "trait", "impl"):
                 if buf:
                     parts.append(("text", "\n".join(buf) + "\n"))
                     buf = []
@@ -777,7 +780,7 @@ def parse_template(text):
             cur = None
         elif d == "contract":
             pending = ("contract", None, [])
-        elif d in ("after", "before", "closure"):
+        elif d in ("after", "before", "closure", "forloop"):
             mm = ANCHOR_RE.match(rest)
             if not mm:
                 raise ExtractError(f"template line {i+1}: bad anchor")
@@ -850,9 +853,9 @@ def extract_item(item, meta, mutant=None, twin=False):
     path = []
     for s in steps[:-1]:
         path.append(s)
-    kwmap = {"fn": "fn", "struct": "struct", "enum": "enum", "const": "const", "expr": "fn", "type": "type"}
+    kwmap = {"fn": "fn", "struct": "struct", "enum": "enum", "const": "const", "expr": "fn", "type": "type", "trait": "trait", "impl": "impl"}
     last = steps[-1]
-    if not last.startswith(kwmap[item.kind] + " "):
+    if not (last.startswith(kwmap[item.kind] + " ") or last.startswith(kwmap[item.kind] + "<")):
         last = kwmap[item.kind] + " " + last
     path.append(last)
     ki, fi, bi, ei = locate(src, path, features)
@@ -990,6 +993,45 @@ def extract_item(item, meta, mutant=None, twin=False):
             ed.replace(ts.start, ts.start, "let vp_ret = ", "R-tail")
             ed.replace(toks[ei - 1].end, toks[ei - 1].end, "; vp_ret", "R-tail")
             fired.add("R-tail")
+    # R-for: `for P in E { B }` -> `let mut it = vp_into_iter(E); loop INV { match it.next() { Some(P) => { B } None => break, } }`
+    for n_for, (anchor, k, inv) in enumerate(item.forloops):
+        h = select_match(ctoks, anchor, k, f"{item.name} //%forloop")
+        if ctoks[h].text != "for":
+            raise ExtractError(f"{item.name}: //%forloop anchor must start at `for`")
+        # find `in` at depth 0 and the body `{`
+        j = h + 1
+        depth = 0
+        in_idx = None
+        while j < len(ctoks):
+            tt = ctoks[j]
+            if tt.text in ("(", "["):
+                depth += 1
+            elif tt.text in (")", "]"):
+                depth -= 1
+            elif tt.text == "in" and depth == 0 and in_idx is None:
+                in_idx = j
+            elif tt.text == "{" and depth == 0 and in_idx is not None:
+                break
+            j += 1
+        body_open = j
+        # matching close
+        d2 = 0
+        e = body_open
+        while e < len(ctoks):
+            if ctoks[e].text == "{":
+                d2 += 1
+            elif ctoks[e].text == "}":
+                d2 -= 1
+                if d2 == 0:
+                    break
+            e += 1
+        pat = item_text = src.text[ctoks[h + 1].start:ctoks[in_idx - 1].end]
+        expr = src.text[ctoks[in_idx + 1].start:ctoks[body_open - 1].end]
+        itn = f"vp_it{n_for}"
+        ed.replace(ctoks[h].start, ctoks[body_open].end,
+                   f"let mut {itn} = vp_into_iter({expr});\n loop\n{inv.rstrip()}\n {{ match {itn}.next() {{ Some({pat}) => {{", "R-for")
+        ed.replace(ctoks[e].start, ctoks[e].end, "} None => break, } }", "R-for")
+        fired.add("R-for")
     # R-clo: closure headers
     for (anchor, k, header) in item.closures:
         h = select_match(ctoks, anchor, k, f"{item.name} //%closure")
